@@ -109,6 +109,15 @@ func parserRequestHeader(c *Client, req *Request) error {
 	// Set HTTP method.
 	req.RawRequest.Header.SetMethod(req.Method())
 
+	// The configured headers replace what an earlier Send of this Request left in RawRequest
+	// under the same names: without this every further Send added them once more.
+	c.header.VisitAll(func(key, _ []byte) {
+		req.RawRequest.Header.DelBytes(key)
+	})
+	req.header.VisitAll(func(key, _ []byte) {
+		req.RawRequest.Header.DelBytes(key)
+	})
+
 	// Merge headers from the client.
 	c.header.VisitAll(func(key, value []byte) {
 		req.RawRequest.Header.AddBytesKV(key, value)
